@@ -1144,7 +1144,8 @@ def process(rep, todo, tag, budget, rule, tier_):
     for text, call, extra in directs:
         c = dict(call); c.update(extra)
         rep.violation("C29 %s: %s (regime %s, prec %d)" % (call["fn"], text, call["regime"], call["prec"]), c)
-    params = {"sentence_timeout": 60 if tier_ == "quick" else 150, "single_timeout": 100 if tier_ == "quick" else 300}
+    # few, long batch files: on a busy machine loading ZArith costs more than the lemmas of a batch
+    params = {"sentence_timeout": 60 if tier_ == "quick" else 150, "single_timeout": 100 if tier_ == "quick" else 300, "batch": 150}
     # The few real-valued (Interval) lemmas are certified separately from the integer ones, so that the integer batch files
     # do not have to load Reals/Interval (that load dominates the cost of a batch on a busy machine).
     zi = [i for i in insts if i.kind == "Z"]
@@ -1157,7 +1158,7 @@ def process(rep, todo, tag, budget, rule, tier_):
         calls_r = {cid: calls[cid] for cid in {i.meta["call"] for i in ri}}
         th = threading.Thread(target=lambda: shim.run(ri, calls_r, tag + "_R", params, left, rule))
         th.start()
-    res = run_and_report(rep, zi, calls, tag=tag, params=params, budget=left, rule=rule, assumptions=ASSUMPTIONS)
+    res = run_and_report(rep, zi, calls, tag=tag, params=params, jobs=min(NPROC, 10), budget=left, rule=rule, assumptions=ASSUMPTIONS)
     if th is not None:
         th.join()
         if shim.error:
